@@ -141,9 +141,13 @@ class DataCase(object):
             others = [k for k in self.keys if not (
                 self.lacks_output and k == self.lacks_output[0])]
             k = others[int(rng.integers(len(others)))]
-            for o in range(self.n_out):
-                self.meas[k][o] = (np.array([]), np.array([]))
-            self.lacks_all = k
+            # (every modelled observable keeps at least one measurement in
+            # the dataset: an observable that never occurs is refused)
+            if all(any(len(self.meas[k2][o][0]) for k2 in self.keys
+                       if k2 != k) for o in range(self.n_out)):
+                for o in range(self.n_out):
+                    self.meas[k][o] = (np.array([]), np.array([]))
+                self.lacks_all = k
         # doses
         self.doses = {k: [] for k in self.keys}
         self.with_duration_col = bool(rng.integers(2))
